@@ -293,6 +293,36 @@ def run(P, R, tier):
                     f'cached partition bounds are propagated under `{gt}`: row selections (boolean masks) inherit bounds of partitions whose rows changed')
     R.floor('C12.g', 'cache propagation sites in __getitem__', nprop, 2)
 
+    # ---------------------------------------------------------------- C12.h nothing on the read path is memoised
+    # read_parquet_dask must report what the dataset holds *now*: a function that reads through the filesystem and is
+    # memoised by its arguments (functools cache decorators, or a module-level dict consulted before reading) returns
+    # the previous dataset's metadata after an overwrite -- no writer-side invalidation can cover other processes.
+    def reads_storage(c, g):
+        if astq.fs_call(c, {'open', 'cat', 'cat_file', 'read_bytes', 'get'}):
+            return True
+        r_ = P.resolve_call(g, c)
+        return bool(r_ and r_[0] == 'ext' and r_[1].split('.')[-1] in ('read_metadata', 'read_table', 'ParquetDataset', 'read_schema', 'ParquetFile'))
+    nread = 0
+    for m in P.mods.values():
+        globals_mut = {t.id for a in m.tree.body if isinstance(a, ast.Assign) and isinstance(a.value, (ast.Dict, ast.Call))
+                       and (isinstance(a.value, ast.Dict) or norm(a.value.func) in ('dict', 'OrderedDict', 'WeakValueDictionary', 'weakref.WeakValueDictionary'))
+                       for t in a.targets if isinstance(t, ast.Name)}
+        for g in m.funcs.values():
+            if isinstance(g.node, ast.Lambda) or not astq.performs(P, g, reads_storage, depth=3):
+                continue
+            nread += 1
+            memo = [d for d in g.tags.get('ext', []) if 'cache' in d.split('.')[-1].lower() or d.split('.')[-1] in ('memoize', 'memoized')]
+            R.check(not memo, 'C12.h', g, None, 'a function that reads the dataset from storage is not memoised',
+                    f'`{g.name}` reads from storage but is memoised by {memo}: after the dataset is rewritten the reader reports the previous metadata/bounds',
+                    construct=f'memoised storage read {g.name}')
+            hits = [n for n in walk_own(g.node) if isinstance(n, ast.Return) and n.value is not None
+                    and any(isinstance(x, ast.Subscript) and isinstance(x.value, ast.Name) and x.value.id in globals_mut and x.value.id not in g.params
+                            or (isinstance(x, ast.Call) and isinstance(x.func, ast.Attribute) and x.func.attr == 'get' and isinstance(x.func.value, ast.Name) and x.func.value.id in globals_mut)
+                            for x in ast.walk(n.value))]
+            R.check(not hits, 'C12.h', g, hits[0] if hits else None, 'a function that reads the dataset from storage does not answer from a module-level table',
+                    f'`{g.name}` answers from a module-level table instead of storage: stale after the dataset is rewritten', construct=f'table-cached storage read {g.name}')
+    R.floor('C12.h', 'functions that read dataset files', nread, 3)
+
 
 def _enclosing_if_test(node):
     n = getattr(node, '_parent', None)
